@@ -231,6 +231,13 @@ objs=[inner(K*grad(u)*K.T + outer(b,u), grad(v))*dx + T4[0,1,2,0]*inner(u,v)*dx]
     _c("two_forms_module", '''
 m=mesh("triangle"); V=space(m,"P",1); u,v=TrialFunction(V),TestFunction(V); f=Coefficient(V)
 objs=[inner(grad(u),grad(v))*dx, f*v*dx, f*f*dx]'''),
+    _c("conditional_branches_with_different_arguments", '''
+m=mesh("triangle"); V=space(m,"P",2); u,v=TrialFunction(V),TestFunction(V); f=Coefficient(V); g=Coefficient(V)
+objs=[conditional(gt(f,0.53125), u*v, u.dx(0)*v)*dx, conditional(lt(f,g), v, 0.0)*g*dx + conditional(gt(f,0.53125), v.dx(1), f*v)*dx,
+      conditional(gt(f,0.53125), u, 0.0)*v*ds]'''),
+    _c("conditional_upwind_dg", '''
+m=mesh("triangle"); V=space(m,"DP",1); u,v=TrialFunction(V),TestFunction(V); f=Coefficient(V); n=FacetNormal(m); b=as_vector([1.0,0.53125])
+objs=[conditional(gt(dot(b,n('+')),0.03125), u('+'), u('-'))*jump(v)*dS, conditional(gt(f('+'),f('-')), v('+'), v('-'))*f('+')*dS]'''),
     _c("exo_iso_macro_element", '''
 m=mesh("triangle"); E=basix.ufl.element("iso","triangle",1); V=FunctionSpace(m,E); u,v=TrialFunction(V),TestFunction(V); f=Coefficient(space(m,"P",2))
 objs=[f*inner(grad(u),grad(v))*dx + inner(u,v)*dx, f*v*ds]'''),
